@@ -183,6 +183,10 @@ class _Quadrature(torch.autograd.Function):
             grad_xu = torch.dot(grad_ys.reshape(-1), fcn(xu, *params).reshape(-1)
                                 ).reshape(xu.shape) if ctx.xutensor else None
 
+            # the rule evaluates the integrand on points shaped like xu (so is grad_ys):
+            # give the lower limit the same shape, it is where the inner quad probes new_fcn
+            xl = xl.reshape(xu.shape)
+
             def new_fcn(x, *grad_y_params):
                 grad_ys = grad_y_params[0]
                 # not setting objparams and params because the params and objparams
